@@ -591,6 +591,32 @@ func c08Families(tier string) []explore.Family {
 		}
 	}})
 
+	// (N) a name denotes its binding, whatever word it is: every word of Liquid's own vocabulary (tag, clause,
+	// modifier, filter and special-value names, in several case forms and as prefixes of longer names) used as
+	// a variable, as a property and as a loop source. Only the literals nil/true/false and the operator words
+	// and/or/contains/in are not names in this grammar.
+	vocab := []string{"empty", "blank", "null", "none", "not", "size", "first", "last", "forloop", "tablerowloop", "tablerow", "reversed", "limit", "offset", "cols",
+		"with", "for", "if", "else", "elsif", "end", "endif", "endfor", "present", "default", "range", "assign", "capture", "include", "cycle", "case", "when", "unless",
+		"break", "continue", "raw", "comment", "liquid", "echo", "render", "increment", "decrement", "loop", "item", "upcase", "join", "map", "sort", "date", "now", "today",
+		"e", "inf", "nan", "NaN", "x2", "_", "_a", "a_", "a-b", "a?", "if2", "orx", "andy", "ina", "inx", "nilx", "truex", "falsey", "contains2", "Empty", "Blank", "NIL", "Nil",
+		"True", "FALSE", "And", "OR", "In", "Contains", "index", "index0", "rindex", "length", "name", "parentloop", "self", "this", "it", "page", "site", "layout", "content"}
+	fams = append(fams, explore.Family{Name: "vocabulary-words-as-names", Count: int64(len(vocab)), Run: func(i int64, r *explore.Rec) {
+		n := vocab[i]
+		src := "{{ " + n + " }}|{{ " + n + ".size }}|{{ " + n + "[0] }}|{{ " + n + "[-1] }}|{% assign z = " + n + " %}{{ z | join: '' }}|{% if " + n + " %}T{% endif %}|{{ m." + n + " }}|{{ m[\"" + n + "\"] }}|" +
+			"{% for i in " + n + " %}{{ i }}{% endfor %}|{% if " + n + " == z %}E{% endif %}|{% if " + n + " contains 'q' %}C{% endif %}|{{ " + n + " | first }}"
+		want := "pq|2|p|q|pq|T|mv|mv|pq|E|C|p"
+		for _, eng := range []*liquid.Engine{c08.eng, c08.strict} {
+			r.Eval()
+			r.Transition()
+			r.Trace()
+			o := Render(eng, src, map[string]any{n: []any{"p", "q"}, "m": map[string]any{n: "mv"}})
+			if o.Panic != nil || o.Err != nil || o.Out != want {
+				r.Violation("name-does-not-denote-its-binding", map[string]any{"template": src, "name": n, "strict": eng == c08.strict}, want, o.String())
+			}
+		}
+		r.Class("vocabulary-name")
+	}})
+
 	// (E4) filters belong to the engine they were registered on: two engines register DIFFERENT functions under
 	// the same names (and one name on one engine only); the same sources are parsed and rendered on both, in
 	// both orders, in one process - whatever is remembered between parses must not cross engines.
